@@ -1584,7 +1584,16 @@ Vec2<T>::length () const IMATH_NOEXCEPT
 {
     T length2 = dot (*this);
 
-    if (IMATH_UNLIKELY (length2 < T (2) * std::numeric_limits<T>::min ()))
+    //
+    // Use the scaled computation when the sum of squares underflowed
+    // (less than 2*min) or overflowed: lengthTiny() divides by the
+    // largest component first, so it is accurate whenever the length
+    // itself is representable.
+    //
+
+    if (IMATH_UNLIKELY (
+            length2 < T (2) * std::numeric_limits<T>::min () ||
+            length2 > std::numeric_limits<T>::max ()))
         return lengthTiny ();
 
     return std::sqrt (length2);
@@ -2065,7 +2074,16 @@ Vec3<T>::length () const IMATH_NOEXCEPT
 {
     T length2 = dot (*this);
 
-    if (IMATH_UNLIKELY (length2 < T (2) * std::numeric_limits<T>::min ()))
+    //
+    // Use the scaled computation when the sum of squares underflowed
+    // (less than 2*min) or overflowed: lengthTiny() divides by the
+    // largest component first, so it is accurate whenever the length
+    // itself is representable.
+    //
+
+    if (IMATH_UNLIKELY (
+            length2 < T (2) * std::numeric_limits<T>::min () ||
+            length2 > std::numeric_limits<T>::max ()))
         return lengthTiny ();
 
     return std::sqrt (length2);
@@ -2519,7 +2537,16 @@ Vec4<T>::length () const IMATH_NOEXCEPT
 {
     T length2 = dot (*this);
 
-    if (IMATH_UNLIKELY (length2 < T (2) * std::numeric_limits<T>::min ()))
+    //
+    // Use the scaled computation when the sum of squares underflowed
+    // (less than 2*min) or overflowed: lengthTiny() divides by the
+    // largest component first, so it is accurate whenever the length
+    // itself is representable.
+    //
+
+    if (IMATH_UNLIKELY (
+            length2 < T (2) * std::numeric_limits<T>::min () ||
+            length2 > std::numeric_limits<T>::max ()))
         return lengthTiny ();
 
     return std::sqrt (length2);
